@@ -42,12 +42,19 @@ fn n_random(p: &EpParams) -> u64 {
     if p.engine == "miri" { 1 } else if tier_thorough(p) { 6000 } else { 600 }
 }
 
+/// Parked consumers x one very large publish (backlog sizes around the 16-bit wrap).
+const BIG_PUBLISHES: [usize; 6] = [65_536, 65_537, 65_541, 70_000, 131_072, 131_075];
+
+fn n_big(p: &EpParams) -> u64 {
+    if p.engine == "miri" { 0 } else if tier_thorough(p) { 6 * 8 } else { 6 * 2 }
+}
+
 pub fn plan(p: &EpParams) -> Plan {
     Plan {
-        episodes: n_grid(p) + n_stream(p) + n_random(p),
+        episodes: n_grid(p) + n_stream(p) + n_random(p) + n_big(p),
         exhaustive: true,
         rule: format!(
-            "grid: max_messages {:?} x backlog sizes {:?} x {{return_immediately, blocking}} (published in batches of 1000, pulls repeated until the backlog is drained); StreamingPull max_outstanding_messages {:?} x backlogs {:?}; blocking pulls on an empty subscription timed against the 5-minute limit on the virtual clock and woken by a later publish; plus {} random sequences of publishes and pulls with random limits. Non-trivial: a pull with backlog > limit or < limit, or a blocking pull timed against the limit. Distinct: (limit, backlog size, kind).",
+            "grid: max_messages {:?} x backlog sizes {:?} x {{return_immediately, blocking}} (published in batches of 1000, pulls repeated until the backlog is drained); StreamingPull max_outstanding_messages {:?} x backlogs {:?}; blocking pulls on an empty subscription timed against the 5-minute limit on the virtual clock and woken by a later publish; plus {} random sequences of publishes and pulls with random limits; plus 2-4 parked consumers (Pull and StreamingPull, limits 1-10) met by ONE publish of 65536..131075 messages (every parked consumer must be served, within its limit). Non-trivial: a pull with backlog > limit or < limit, or a blocking pull timed against the limit. Distinct: (limit, backlog size, kind).",
             limits(p), backlogs(p), STREAM_LIMITS, STREAM_BACKLOGS, n_random(p)
         ),
     }
@@ -187,6 +194,79 @@ async fn episode(p: &EpParams) -> EpReport {
         }
         rep.nontrivial = true;
         rep.key = format!("stream limit={} backlog={}", limit, backlog);
+    } else if idx >= n_grid(p) + n_stream(p) + n_random(p) {
+        // several parked consumers, then one publish that makes the backlog cross the 16-bit wrap
+        let k = idx - (n_grid(p) + n_stream(p) + n_random(p));
+        let n_pub = BIG_PUBLISHES[(k % BIG_PUBLISHES.len() as u64) as usize];
+        let (t2, s2) = (topic_name(1, 2), sub_name(1, 2));
+        let cx = Cx::new(&w, 20);
+        cx.create_topic(&t2).await.ok();
+        cx.create_sub(&s2, &t2, 600).await.ok();
+        let n_wait = rng.range(2, 4);
+        let mut waiters = Vec::new();
+        let mut stream = None;
+        for i in 0..n_wait {
+            let lim = rng.range(1, 10) as i32;
+            if i == n_wait - 1 && rng.chance(1, 3) {
+                // the last parked consumer is an idle StreamingPull
+                if let Ok(h) = Cx::new(&w, 40).open_stream(&s2, lim as i64).await {
+                    stream = Some((lim, h));
+                    continue;
+                }
+            }
+            let c = Cx::new(&w, 21 + i as u32);
+            let s3 = s2.clone();
+            waiters.push((lim, tokio::spawn(async move { c.pull(&s3, lim, false).await })));
+            w.settle().await;
+        }
+        w.settle().await;
+        let msgs: Vec<Msg> = (0..n_pub).map(|j| Msg::tagged(&format!("g{}", j))).collect();
+        if cx.publish(&t2, &msgs).await.is_err() {
+            rep.inconclusive("big publish failed");
+        }
+        w.settle().await;
+        let mut served = 0;
+        for (lim, h) in waiters {
+            if !h.is_finished() {
+                rep.viol("C15", "C15:blocked-pull-not-woken:big-backlog", format!("a Pull (max_messages {}) parked before a publish of {} messages is still waiting at quiescence", lim, n_pub));
+                rep.viol("C06", "C06:Q-wake:publish:pull", format!("a parked Pull is still waiting although {} messages were published", n_pub));
+                h.abort();
+                continue;
+            }
+            match h.await {
+                Ok(Ok(ds)) => {
+                    if ds.is_empty() {
+                        rep.viol("C15", "C15:empty-without-return-immediately", format!("a parked Pull returned empty after a publish of {} messages", n_pub));
+                    } else if ds.len() > lim as usize {
+                        rep.viol("C15", "C15:over-limit:Pull", format!("Pull with max_messages {} returned {} messages", lim, ds.len()));
+                    } else {
+                        served += 1;
+                    }
+                }
+                _ => rep.inconclusive("parked pull failed"),
+            }
+        }
+        if let Some((lim, h)) = &stream {
+            let ds = h.deliveries();
+            if ds.is_empty() {
+                rep.viol("C15", "C15:blocked-pull-not-woken:big-backlog", format!("an idle StreamingPull (max_outstanding_messages {}) received nothing after a publish of {} messages", lim, n_pub));
+                rep.viol("C06", "C06:Q-wake:publish:stream", format!("an idle StreamingPull received nothing although {} messages were published", n_pub));
+            } else {
+                served += 1;
+                let mut per_resp: std::collections::BTreeMap<u32, usize> = Default::default();
+                for d in &ds {
+                    *per_resp.entry(d.resp_no).or_insert(0) += 1;
+                }
+                if per_resp.values().any(|n| *n > *lim as usize) {
+                    rep.viol("C15", "C15:over-limit:Stream", format!("StreamingPull response carries more than max_outstanding_messages {}", lim));
+                }
+            }
+        }
+        rep.add("parked_consumers_served_by_big_publish", served);
+        drop(stream);
+        let _ = cx.delete_sub(&s2).await;
+        rep.nontrivial = true;
+        rep.key = format!("parked={} big_publish={}", n_wait, n_pub);
     } else {
         // random sequences of publishes and pulls with random limits
         let n = rng.range(15, 40);
